@@ -47,6 +47,11 @@ fn eval_op(prog: Prog, parse_exec: bool) -> Op {
         Op::ExecSole { prog, slot: 0 }
     } else if parse_exec {
         Op::ParseExec { prog, ctx: CtxRef::Slot(0), times: 1 }
+    } else if n % 4 == 3 {
+        // thread teardown: the program runs on a spawned thread and once more from the destructor of one of
+        // that thread's own thread-locals while the thread ends
+        let late = prog.text().len() % 2 == 0;
+        Op::OnThreadExit { ops: vec![Op::Exec { prog, ctx: CtxRef::Slot(0) }], late }
     } else {
         Op::Exec { prog, ctx: CtxRef::Slot(0) }
     }
@@ -159,7 +164,7 @@ impl Prop for C06 {
                 "right-hand sides stay inside the domain where built-ins do not reach C04's numeric edges",
                 "non-name targets contain no observable handlers (the order between evaluating and rejecting such a target is not demanded); the target of a PLAIN `=` is never a name bound to a context function (whether `f = e` reads f is not demanded), the target of a compound form may be one (`f op= e` must bind f to f() op e)",
             ],
-            fault_kinds: &["natural_err", "handler_err", "fresh_process"],
+            fault_kinds: &["natural_err", "handler_err", "fresh_process", "thread_teardown"],
             probes: &[
                 "failing_statement_first",
                 "failing_statement_last",
@@ -202,6 +207,9 @@ impl Prop for C06 {
         // fault-free sub-run
         let out = rt.sim(&c0, &spec);
         rt.fired("fresh_process", 1);
+        if c0.pre.iter().any(|o| matches!(o, Op::OnThreadExit { .. })) {
+            rt.fired("thread_teardown", 1);
+        }
         if assignments >= 2 {
             rt.nontrivial(c0.fingerprint());
         }
